@@ -1738,6 +1738,11 @@ func (n *node) spawn(factory gen.ProcessFactory, options gen.ProcessOptionsExtra
 	if options.LinkParent {
 		n.targetManager.AddLink(p.pid, p.parent)
 	}
+	if options.LinkChild && options.ParentPID.Node == n.name && options.ParentPID != n.corePID {
+		// must exist before the child is registered: a child that terminates
+		// right after the spawn has to find the link of its parent
+		n.targetManager.AddLink(p.parent, p.pid)
+	}
 
 	// register process and switch it to the sleep state
 	p.state = int32(gen.ProcessStateSleep)
